@@ -87,6 +87,11 @@ func LoadProgram(dir string, overlay map[string][]byte, patterns []string) (*Eng
 		e.ctxType = cp.Type("Context").Type()
 	}
 	e.registerIntrinsics()
+	e.summarise = map[string]bool{}
+	e.merging = true
+	for _, n := range defaultSummarised {
+		e.summarise[n] = true
+	}
 	return e, nil
 }
 
@@ -95,7 +100,7 @@ func (e *Engine) initPackages(slv *Solver) error {
 	st := &State{eng: e, slv: slv, heap: &Heap{objs: map[int]Value{}}, ghost: map[string]Value{}, harness: "<init>"}
 	var order []*ssa.Package
 	for path, p := range e.pkgs {
-		if strings.HasPrefix(path, modPath+"/internal") && !strings.Contains(path, "/vn") {
+		if strings.HasPrefix(path, modPath+"/internal") {
 			order = append(order, p)
 		}
 	}
@@ -165,6 +170,26 @@ func (e *Engine) RunHarness(pkgPath, fnName string, workers int, workDir string)
 		wg      sync.WaitGroup
 		started = time.Now()
 	)
+	stopMon := make(chan struct{})
+	if e.verbose {
+		go func() {
+			tk := time.NewTicker(5 * time.Second)
+			defer tk.Stop()
+			for {
+				select {
+				case <-stopMon:
+					return
+				case <-tk.C:
+					mu.Lock()
+					sl, ac := len(stack), active
+					mu.Unlock()
+					fmt.Fprintf(os.Stderr, "[%s %.0fs] states=%d paths=%d instrs=%d queries=%d (unknown %d) smt=%.0fs stack=%d active=%d findings=%d\n", fnName, time.Since(started).Seconds(),
+						atomic.LoadInt64(&e.stats.States), atomic.LoadInt64(&e.stats.Paths), atomic.LoadInt64(&e.stats.Instrs), atomic.LoadInt64(&gStats.Queries), atomic.LoadInt64(&gStats.Unknown), float64(atomic.LoadInt64(&gStats.NanosSMT))/1e9, sl, ac, len(e.findings))
+				}
+			}
+		}()
+	}
+	defer close(stopMon)
 	for w := 0; w < workers; w++ {
 		wg.Add(1)
 		go func(w int) {
@@ -265,6 +290,8 @@ func (e *Engine) intrByPattern(fn *ssa.Function) (Intrinsic, bool) {
 func (e *Engine) globalModel(st *State, g *ssa.Global) (Value, bool) {
 	name := g.Pkg.Pkg.Path() + "." + g.Name()
 	switch name {
+	case "encoding/base64.StdEncoding", "encoding/base64.URLEncoding", "encoding/base64.RawURLEncoding", "encoding/base64.RawStdEncoding":
+		return Ptr{obj: st.newObj(OpaqueV{kind: "b64enc", data: name})}, true
 	case "io.EOF", "github.com/redis/go-redis/v9.Nil", "net/http.ErrUseLastResponse":
 		return e.newErrorOnce(name), true
 	}
